@@ -11,6 +11,7 @@ CONSTANTS
   MaxUDP = 48
   FrameMode = "checked"
   PtrMode = "bounded"
+  DecoderMode = "pure"
   NonceMode = "fresh"
   ReqLens <- Upto40
   RespLens <- Upto40
